@@ -29,6 +29,8 @@ CL_USED = ("a parent with >= 2 children reports its listed markers that occur in
 CL_SINGLE = "a parent with a single child reports no markers"
 CL_FLAT = "flatten: the root reports exactly the union of every list of the marker table restricted to the query genes"
 CL_KEYS = "the reported table has exactly one entry per parent of the taxonomy the run used (root included)"
+CL_RUNS = ("a table whose root keeps a usable marker (all listed genes being reference genes) is mapped without error, "
+           "whatever the node names, flatten / drop_level and min_markers")
 
 
 def _grp(parent):
@@ -107,9 +109,13 @@ def _task(task):
                     except Exception as e:   # noqa
                         if not fx.escaped_from_package(e):
                             emit(CL_KEYS, detail, 'harness-error', traceback.format_exc()[-900:])
-                        # error outcomes (root without usable markers, ...) are the business of the
-                        # proved contracts and of C01's exception-freedom clause
+                        else:
+                            # by construction the root keeps >= 1 usable marker and every listed gene is a
+                            # reference gene, so the ancestor fall-back can always supply a parent: no error
+                            # outcome of the property applies to these runs
+                            emit(CL_RUNS, detail, 'ok', fx.package_error_text(e, 300))
                         continue
+                    emit(CL_RUNS, detail, 'ok', None)
                     rep = blob.get('marker_genes')
                     if not isinstance(rep, dict):
                         emit(CL_KEYS, detail, 'ok', f"output has no marker_genes table: {type(rep).__name__}")
@@ -172,8 +178,8 @@ def _task(task):
 
 def tasks_for(tier, seed):
     quick = tier == 'quick'
-    shapes = ['d3_bal', 'd3_chain', 'd2_single_child', 'd3_reuse'] if quick else \
-        ['d3_bal', 'd3_chain', 'd2_single_child', 'd3_reuse', 'd2_bal', 'd3_mid_single', 'd2_reuse', 'd1_four']
+    shapes = ['d3_bal', 'd3_chain', 'd2_single_child', 'd3_reuse', 'd3_slash'] if quick else \
+        ['d3_bal', 'd3_chain', 'd2_single_child', 'd3_reuse', 'd3_slash', 'd2_bal', 'd3_mid_single', 'd2_reuse', 'd1_four']
     encs = ['dense', 'csr', 'csc']
     out = []
     for i, s in enumerate(shapes):
@@ -184,10 +190,10 @@ def tasks_for(tier, seed):
 
 def run(tier='quick', seed=0, jobs=1):
     seed = int(seed or 0)
-    clauses = [CL_USED, CL_SINGLE, CL_FLAT, CL_KEYS]
+    clauses = [CL_USED, CL_SINGLE, CL_FLAT, CL_KEYS, CL_RUNS]
     bound = ("%d taxonomy shapes (depth 1-3, single-child parents, labels reused across levels) x {full query, query lacking "
              "a third of the listed markers} x min_markers %s x {no reduction, every droppable level, flatten, flatten + "
-             "every droppable level}; 6 query cells" % ((4, '{1, 6}') if tier == 'quick' else (8, '{1, 3, 6, 40}')))
+             "every droppable level}; 6 query cells" % ((5, '{1, 6}') if tier == 'quick' else (9, '{1, 3, 6, 40}')))
     row = fx.new_row(ENTRY, 'seeded-random', bound, clauses)
     try:
         rows = {c: row for c in clauses}
